@@ -15,7 +15,7 @@ TRUST = 'pandas 3.0.6 / numpy 2.5.3 / CPython 3.12.1; the verdict is for the sta
 CHECKS = {
     'C01': ('E1', 'explicit-state BFS over operation histories on real dictable objects, list-of-records model in lock-step, canonical-state de-duplication',
             'Breadth-first search over histories of public table operations (assignment incl. misfits, deletion, slicing, masks, integer lists, projection, derived columns, '
-            'renaming, do, -, &, copy, inc/exc, + and concat with 9 kinds of operand) from 23 constructions, depth 2 (quick) / 4 (thorough), tables <=3/4 rows x <=3 columns x 5 cell values. '
+            'renaming, do, -, &, copy, inc/exc, + and concat with 10 kinds of operand) from ~55 constructions, depth 2 (quick) / 3 (thorough), tables <=3/4 rows x <=3 columns x 5 cell values. '
             'Every transition is compared with a list-of-records model (rectangularity, len/shape, d[i][c]==d[c][i], iteration, None fill), every version produced earlier in the '
             'history is re-inspected (aliasing), misfit assignments must raise ValueError and leave the table intact, and the same op on a freshly built equal table must agree.',
             'Bounded depth and table size; column order, rename clashes, wrong-length masks are excluded. ' + TRUST, 'DESIGN.md section 4, C01'),
